@@ -90,7 +90,7 @@ CacheWrite(proto, tmp, tgt, v, ok, er) ==
   LET K == CacheChunks
       f == IF proto = "atomic" THEN tmp ELSE tgt
   IN (("co") :> Opn(f, CL(1), "cu"))
-     @@ [l \in {CL(i) : i \in 1..K} |-> LET i == CHOOSE j \in 1..K : CL(j) = l IN
+     @@ [lbl \in {CL(i) : i \in 1..K} |-> LET i == CHOOSE j \in 1..K : CL(j) = lbl IN
             Wr(f, v, i, K, IF i = K THEN "cc" ELSE CL(i + 1), "cx")]
      @@ ("cc" :> Cls(f, IF proto = "atomic" THEN "cr" ELSE ok, "cu")) @@ ("cx" :> ClsQ(f, "cu"))
      @@ ("cu" :> UnlQ(f, er))
